@@ -868,7 +868,37 @@ def extract(routines, name, init_env=None):
     return ex.explore()
 
 
+def has_cycle(sch):
+    out = collections.defaultdict(list)
+    for e in sch['edges']:
+        out[e['src']].append(e['dst'])
+    colour = {}
+    for start in list(out):
+        if colour.get(start):
+            continue
+        stack = [(start, iter(out[start]))]
+        colour[start] = 1
+        while stack:
+            n, it = stack[-1]
+            for d in it:
+                if d == -1:
+                    continue
+                if colour.get(d) == 1:
+                    return True
+                if not colour.get(d):
+                    colour[d] = 1
+                    stack.append((d, iter(out[d])))
+                    break
+            else:
+                colour[n] = 2
+                stack.pop()
+    return False
+
+
 def count_paths(sch):
+    """number of entry ~> Return paths; -1 when the graph has a cycle (unboundedly many)"""
+    if has_cycle(sch):
+        return -1
     out = collections.defaultdict(list)
     for e in sch['edges']:
         out[e['src']].append(e)
